@@ -327,6 +327,37 @@ pub fn run(ctx: &Ctx) {
         "cell",
     );
 
+    // depth 2 over the coinciding family: every outer kind over every inner cell (e.g. !!i1 must stay a type error)
+    let c2 = Cells2::new(vec![
+        Value::Int(1),
+        Value::Float(1.0),
+        crate::pool::dec(1, 0),
+        Value::String("1".into()),
+        Value::Bool(true),
+        Value::Vec(vec![Value::Int(1)]),
+        crate::pool::map(&[]),
+    ]);
+    ctx.enumerate(
+        "coinciding-depth2",
+        c2.count(),
+        true,
+        |i, acc| {
+            let case = c2.cell(i);
+            let o = observe(&case);
+            acc.cell(&format!("d2:{}", root_sig(&case.expr)), matches!(o.model, Err(MErr::InvalidType)));
+            if i % 9973 == 0 {
+                acc.sample("d2", || case.render());
+            }
+            super::c02::judge(&case, &o.actual, &o.model).map_err(|i| Issue::new(i.sig.replace("table:", "coerce-tree:"), i.msg))
+        },
+        |i| {
+            let mut j = c2.cell(i).to_json();
+            j["buried"] = serde_json::json!(true);
+            j
+        },
+        "buried",
+    );
+
     let nrand = ctx.tier.pick(600_000u64, 6_000_000u64);
     ctx.random_min(
         "buried-mismatch-trees",
